@@ -319,6 +319,14 @@ func genProdPlan(seed int64, tier string) *ProdPlan {
 		if r.Intn(20) == 0 {
 			k = 200 + r.Intn(800) // multi-kilobyte
 		}
+		if r.Intn(40) == 0 {
+			// large messages, also around and beyond 64 KiB (a udp sink takes
+			// at most one datagram's worth)
+			k = []int{4000, 20000, 60000, 65400 + r.Intn(200), 100000, 300000}[r.Intn(6)]
+			if p.Proto == "udp" && k > 15000 {
+				k = 15000 // alphabet entries are several octets long: stays below one datagram
+			}
+		}
 		for j := 0; j < k; j++ {
 			switch r.Intn(4) {
 			case 0:
